@@ -19,7 +19,10 @@ package main
 //   * a key the registry no longer resolves (pruned, never used) hits nobody and changes nothing
 //     (digest of the operator / assets / delegation stores).
 // Every probe is also an op line `ck.slashprobe <key> <operators with stake>` whose observation
-// `<slashed>/<jailed>` the Lean model reproduces from `slashTarget` / `jailTarget`.
+// `<slashed>/<jailed>/<gate>` the Lean model reproduces from `slashTarget` / `jailTarget` / `validatorTarget`
+// (gate = the operator of the validator `ValidatorByConsAddr(consAddr)` returns, "-" = nil: the call
+// x/slashing's downtime handler and x/evidence's equivocation handler make FIRST and whose nil / unbonded
+// answer makes them return without slashing or jailing).
 
 import (
 	"crypto/sha256"
@@ -39,6 +42,9 @@ import (
 	operatortypes "github.com/ExocoreNetwork/exocore/x/operator/types"
 )
 
+// f07cReported: the defect F-07c shows in every probe of every history; one violation per run is enough
+var f07cReported bool
+
 type ckProbeRes struct {
 	slashed  []int // operators with a slash record of this probe
 	poolDown []int // operators whose asset pools decreased
@@ -46,6 +52,12 @@ type ckProbeRes struct {
 	jailed   []int // operators whose Jailed flag followed Jail / Unjail by this address
 	valJail  bool  // IsValidatorJailed(consAddr) right after Jail
 	panicked string
+	// ValidatorByConsAddr(consAddr): the gate of the SDK's two callers (see slashProbe)
+	valNil      bool   // nil: x/slashing and x/evidence return without slashing / jailing
+	valUnbonded bool   // IsUnbonded(): x/evidence ignores the evidence
+	valOp       int    // operator id of GetOperator() (-1 = unknown address)
+	valKeyID    int    // key id of the validator's consensus public key (-1 = none / unknown)
+	valPanic    string // ValidatorByConsAddr panicked (BeginBlock of x/slashing / x/evidence would halt)
 }
 
 // ckDigest = sha256 over the stores a slash / jail by consensus address reads or writes.
@@ -98,6 +110,31 @@ func (w *ckWorld) slashProbe(ctx sdk.Context, key int, power int64, regs []int, 
 	defer func() {
 		if r := recover(); r != nil {
 			res.panicked = fmt.Sprint(r)
+		}
+	}()
+	// ---- the gate: x/slashing HandleValidatorSignature (downtime) and x/evidence
+	// handleEquivocationEvidence (double sign) both start with ValidatorByConsAddr(consAddr) and do
+	// NOTHING when it returns nil (x/evidence also when IsUnbonded()); both run inside BeginBlock, where
+	// a panic is a halted node.
+	res.valOp, res.valKeyID = -1, -1
+	func() {
+		defer func() {
+			if r := recover(); r != nil {
+				res.valPanic = shortMsg(fmt.Sprint(r))
+				res.valNil = true
+			}
+		}()
+		cctx, _ := ctx.CacheContext()
+		cctx = cctx.WithGasMeter(sdk.NewInfiniteGasMeter())
+		v := sk.ValidatorByConsAddr(cctx, ca)
+		if v == nil {
+			res.valNil = true
+			return
+		}
+		res.valUnbonded = v.IsUnbonded()
+		res.valOp = w.OpID(sdk.AccAddress(v.GetOperator()))
+		if pk, err := v.ConsPubKey(); err == nil && pk != nil {
+			res.valKeyID = w.KeyID(sdk.ConsAddress(pk.Address()))
 		}
 	}()
 	// ---- slash
@@ -243,8 +280,23 @@ func (w *ckWorld) slashMonitors(ctx sdk.Context, phase string, pfx string) {
 		rev := w.RevOp(ctx, k)
 		p := w.slashProbe(ctx, k, power, regs, pools)
 		op := fmt.Sprintf("ck.slashprobe %d %s", k, dashInts(staked))
-		env.Op(op, dashInts(p.slashed)+"/"+dashInts(p.jailed))
+		gate := "-" // operator of ValidatorByConsAddr(consAddr) ("-" = nil): Model validatorTarget
+		switch {
+		case p.valPanic != "":
+			gate = "panic"
+		case !p.valNil:
+			gate = fmt.Sprint(p.valOp)
+		}
+		env.Op(op, dashInts(p.slashed)+"/"+dashInts(p.jailed)+"/"+gate)
 		env.Eval("C07.slashable")
+		if p.valPanic != "" {
+			w.viol("C07.slashable", "validator-by-consaddr-panic", fmt.Sprintf("ValidatorByConsAddr(address of key %d) panicked: %s — x/slashing (downtime) and x/evidence (double sign) call it in BeginBlock for the addresses CometBFT reports: a node would stop (reverse index -> operator %d, that operator's current key %d)", k, p.valPanic, rev, func() int {
+				if rev < 0 {
+					return -1
+				}
+				return w.CurKey(ctx, rev)
+			}()), append(append([]string{}, w.hist...), op))
+		}
 		if p.panicked != "" {
 			w.viol("C07.slashable", "slash-probe-panic", fmt.Sprintf("slash / jail by the address of key %d panicked: %s", k, p.panicked), append(append([]string{}, w.hist...), op))
 			continue
@@ -269,6 +321,32 @@ func (w *ckWorld) slashMonitors(ctx sdk.Context, phase string, pfx string) {
 			}
 			hist := func() []string {
 				return append(append([]string{}, w.hist...), op+fmt.Sprintf("   # phase=%s epoch=%d: key %d (%s) belongs to operator %d, in validator store=%v, reverse index -> %d", phase, ep, k, wt.why, wt.owner, inSet, rev))
+			}
+			// the gate of the SDK's handlers: a nil (or unbonded) validator means the evidence / the missed
+			// blocks of this address are dropped before SlashWithInfractionReason / Jail are reached
+			env.Eval("C07.slashable.gate")
+			if p.valPanic == "" && p.valNil && w.CurKey(ctx, wt.owner) < 0 && rev == wt.owner {
+				// F-07d (genuine defect of the unchanged code, listed in known_findings.json): the reverse index
+				// still resolves the unbonding key, but its operator has no CURRENT key any more (opt-out
+				// completed earlier) and ValidatorByConsAddrForChainID builds the validator from that key
+				env.Outcome("slashprobe:gate-nil,operator-without-key(F-07d)")
+				if !f07dReported || pfx == "F-07d:" {
+					if pfx != "F-07d:" {
+						f07dReported = true
+					}
+					w.viol("C07.slashable", "F-07d:old-key-gate-nil-operator-without-key", fmt.Sprintf("ValidatorByConsAddr by the consensus address of key %d (%s) returned nil although the reverse index resolves it to operator %d: that operator completed an opt-out and has no current key, and ValidatorByConsAddrForChainID needs GetOperatorConsKeyForChainID(operator) to build the validator; x/slashing and x/evidence drop downtime / double-sign evidence against the old key while SlashWithInfractionReason / Jail by the same address would still hit operator %d", k, wt.why, rev, wt.owner), hist())
+				}
+			} else if p.valPanic == "" && p.valNil {
+				w.viol("C07.slashable", where+"-validator-nil", fmt.Sprintf("ValidatorByConsAddr by the consensus address of key %d (%s; reverse index resolves it to %d; operator %d's current key is %d) returned nil: x/slashing and x/evidence drop downtime / double-sign evidence for this address without slashing or jailing", k, wt.why, rev, wt.owner, w.CurKey(ctx, wt.owner)), hist())
+			} else if p.valPanic == "" && p.valOp != wt.owner {
+				w.viol("C07.slashable", where+"-validator-wrong-operator", fmt.Sprintf("ValidatorByConsAddr by the consensus address of key %d (%s) returned a validator of operator %d, the key belongs to operator %d", k, wt.why, p.valOp, wt.owner), hist())
+			} else if p.valPanic == "" && p.valUnbonded {
+				// F-07c (genuine defect of the unchanged code, listed in known_findings.json): reported once per run
+				env.Outcome("slashprobe:gate-status-unbonded(F-07c)")
+				if !f07cReported {
+					f07cReported = true
+					env.Violate("C07.slashable", "F-07c:validator-status-unbonded", fmt.Sprintf("ValidatorByConsAddr by the consensus address of key %d (%s, operator %d) returns a validator whose status is Unbonded (stakingtypes.NewValidator's default, never overwritten by ValidatorByConsAddrForChainID): x/evidence's HandleEquivocationEvidence returns at `validator == nil || validator.IsUnbonded()`, so double-sign evidence against ANY consensus address of this chain - validating or replaced / removed and still unbonding - is dropped without slash, jail or tombstone", k, wt.why, wt.owner), hist())
+				}
 			}
 			if isStaked[wt.owner] && !has(p.slashed, wt.owner) {
 				w.viol("C07.slashable", where+"-not-slashed", fmt.Sprintf("SlashWithInfractionReason by the consensus address of key %d (%s; operator %d has stake; reverse index resolves it to %d; in validator store=%v) wrote no slash record for operator %d (slashed: %s)", k, wt.why, wt.owner, rev, inSet, wt.owner, dashInts(p.slashed)), hist())
